@@ -4,7 +4,7 @@
 that the pre-built `mujoco` wheel is never imported.
 
 Line protocol (ASCII on the wire), identical to lean/Drivers/C49.lean:
-  parse <hex>          -> `ok <ast> | <hex of str(ast)>`  |  `reject`
+  parse <hex>          -> `ok <ast> | <hex of str(ast)> | <ast of parse_type(str(ast))>`  |  `reject`
   ret <hex>            -> same through parse_function_return_type
   decl <ast> [@ <hex>] -> `ok <hex of t.decl(name)> | <ast of parse_type(str(t))>|reject`
   wf <ast>             -> `wf 1` iff parse_type(str(t)) == t
@@ -140,7 +140,8 @@ def step(line):
         t, err = try_parse(type_parsing.parse_type if op == "parse" else type_parsing.parse_function_return_type, s)
         if err:
             return err
-        return "ok " + show(t) + " | " + enc(str(t))
+        t2, err2 = try_parse(type_parsing.parse_type, str(t))
+        return "ok " + show(t) + " | " + enc(str(t)) + " | " + (err2 if err2 else show(t2))
     if op in ("decl", "wf"):
         body = line[len(op) + 1:].strip(" ")
         name = ""
